@@ -305,6 +305,16 @@ func (c *Ctx) basicLatinModel() (blProblems, *ast.FuncDecl) {
 				add("class-decision-as-general-path", "no rune loop over all 128 Basic Latin runes")
 				continue
 			}
+			// the occurrence number of a repeated call text (nth2(unicode.ToLower(r)) when an earlier loop folded its own
+			// r the same way) says nothing inside this loop: the fold is a pure function of the loop's rune
+			{
+				nb := make(bpath, len(body))
+				for k, e2 := range body {
+					e2.Text = stripNth(e2.Text)
+					nb[k] = e2
+				}
+				body = nb
+			}
 			tested := runeText
 			switch {
 			case body.holds(ic):
@@ -358,4 +368,44 @@ func texts(evs []pev) []string {
 		out = append(out, e.Text)
 	}
 	return out
+}
+
+// stripNth removes the occurrence wrappers nth<k>( … ) from a normal-form text.
+func stripNth(t string) string {
+	for {
+		i := strings.Index(t, "nth")
+		for i >= 0 {
+			j := i + 3
+			for j < len(t) && t[j] >= '0' && t[j] <= '9' {
+				j++
+			}
+			if j > i+3 && j < len(t) && t[j] == '(' && (i == 0 || !isIdentByte(t[i-1])) {
+				// matching parenthesis
+				depth, k := 0, j
+				for ; k < len(t); k++ {
+					if t[k] == '(' {
+						depth++
+					} else if t[k] == ')' {
+						depth--
+						if depth == 0 {
+							break
+						}
+					}
+				}
+				if k < len(t) {
+					t = t[:i] + t[j+1:k] + t[k+1:]
+					break
+				}
+			}
+			n := strings.Index(t[i+3:], "nth")
+			if n < 0 {
+				i = -1
+			} else {
+				i = i + 3 + n
+			}
+		}
+		if i < 0 {
+			return t
+		}
+	}
 }
